@@ -512,6 +512,14 @@ func c13FieldOwner(c *Ctx, fld *types.Var) {
 		if onlyTest {
 			continue
 		}
+		// a read on the object this very activation allocated (the constructor, after it stored the field): nobody
+		// can have closed it yet
+		if u := l.load; u != nil {
+			if fa, ok := u.X.(*ssa.FieldAddr); ok && p.freshBase(fa) {
+				c.ok(p.fname(fn), "use of "+fname+" on the object being constructed", p.ipos(l.instr), "the object was allocated in this activation and has not been handed out: it cannot have been closed")
+				continue
+			}
+		}
 		facts := factsAt(fn)
 		c.check(guardedNonNil(p, facts, l.instr.Block(), fld), p.fname(fn), "use of "+fname+" behind the nil guard", p.ipos(l.instr),
 			"the field is only used where it was tested non-nil (not yet released)",
